@@ -306,9 +306,15 @@ fn transform_case(rng: &mut Rng, out: &mut CaseOut, max_log: usize) {
     } else {
         nz = (0..limit).collect();
     }
+    // a third of the cases: blocks with zero halves, zero low or high bytes,
+    // constant bytes ... (shapes that uniformly random data never has)
+    let structured = rng.chance(1, 3);
     for b in buf.iter_mut() {
         if !big {
             rng.fill(b); // also the shards outside the range (canaries)
+            if structured {
+                crate::mon_c03::structure_block(rng, b);
+            }
         }
     }
     if !big && inverse {
@@ -319,6 +325,9 @@ fn transform_case(rng: &mut Rng, out: &mut CaseOut, max_log: usize) {
     if big {
         for k in &nz {
             rng.fill(&mut buf[pos + *k]);
+            if structured {
+                crate::mon_c03::structure_block(rng, &mut buf[pos + *k]);
+            }
         }
     }
     let input = buf.clone();
@@ -397,6 +406,9 @@ fn transform_case(rng: &mut Rng, out: &mut CaseOut, max_log: usize) {
     let _ = lane_set;
     out.tag(format!("{}:log2={n}", if inverse { "ifft" } else { "fft" }));
     out.tag(format!("transform-engine:{}", eng.name()));
+    if structured {
+        out.tag("structured-input");
+    }
     if skew_delta == size * (chunks - 1) {
         out.tag("last-chunk-offset");
     }
